@@ -6,7 +6,8 @@
 //
 //   tag            the value of `ptr`: 0xF = empty, 1..=8 = inline length, otherwise the header address, bit 0 = shared
 //   hlen, haux     Heap { len, aux }: aux is the capacity when owned, the offset into the buffer when shared
-//   inl            the inline bytes (ghost)
+//   inl            the 8 bytes of the inline buffer (ghost; they overlap Heap { len, aux }, so they are arbitrary for a heap
+//                  tendril); an inline tendril of length n stands for the first n of them
 //   data           the initialised bytes of the heap buffer the tendril points to (ghost).  A buffer whose shared bit is
 //                  set is never written again (every mutation goes through make_owned, which copies), so all tendrils
 //                  that view one shared buffer see the same `data` (axiom_shared_buffer).
@@ -35,14 +36,15 @@ impl Tendril {
     /// the bytes the tendril stands for
     pub open spec fn view(&self) -> Seq<u8> {
         if self.tag == EMPTY_TAG { Seq::<u8>::empty() }
-        else if self.tag <= MAX_INLINE_LEN { self.inl@ }
+        else if self.tag <= MAX_INLINE_LEN { self.inl@.take(self.tag as int) }
         else if self.shared_bit() { self.data@.subrange(self.haux as int, self.haux as int + self.hlen as int) }
         else { self.data@.subrange(0, self.hlen as int) }
     }
     /// representation invariant
     pub open spec fn wf(&self) -> bool {
         &&& self.tag != 0
-        &&& (self.tag <= MAX_INLINE_TAG ==> self.tag == EMPTY_TAG || (1 <= self.tag <= MAX_INLINE_LEN && self.inl@.len() == self.tag))
+        &&& self.inl@.len() == MAX_INLINE_LEN
+        &&& (self.tag <= MAX_INLINE_TAG ==> self.tag == EMPTY_TAG || 1 <= self.tag <= MAX_INLINE_LEN)
         &&& (self.is_heap() ==> self.data@.len() <= u32::MAX
               && (if self.shared_bit() { self.haux as int + self.hlen as int <= self.data@.len() } else { self.hlen as int <= self.data@.len() }))
     }
@@ -94,7 +96,14 @@ impl Tendril {
     #[verifier::external_body]
     pub unsafe fn shared(buf: Buf32, off: u32, len: u32) -> (r: Tendril)
         requires buf.ptr % 2 == 0, buf.ptr > MAX_INLINE_TAG,
-        ensures r.tag == buf.ptr + 1, r.haux == off, r.hlen == len, r.data@ == buf.data@,
+        ensures r.tag == buf.ptr + 1, r.haux == off, r.hlen == len, r.data@ == buf.data@, r.inl@.len() == MAX_INLINE_LEN,
+    { unimplemented!() }
+    /// un-shares / grows: afterwards the tendril owns a buffer of at least `cap` bytes that starts with the same content
+    #[verifier::external_body]
+    pub unsafe fn make_owned_with_capacity(&mut self, cap: u32)
+        requires old(self).wf(),
+        ensures final(self).wf(), final(self).is_heap(), !final(self).shared_bit(), final(self).view() == old(self).view(),
+                final(self).data@.len() >= cap, final(self).hlen as int == old(self).view().len(),
     { unimplemented!() }
     #[verifier::external_body]
     pub fn new() -> (r: Tendril) ensures r.wf(), r.tag == EMPTY_TAG { unimplemented!() }
